@@ -4,6 +4,7 @@ import (
 	"fmt"
 	"go/types"
 	"os"
+	"strings"
 )
 
 func init() {
@@ -23,4 +24,13 @@ func init() {
 		}
 		os.Exit(0)
 	}
+}
+
+func dbgFacts(c *Config, p []Fact) string {
+	var out []string
+	for _, fa := range p {
+		v, t := normCond(fa.Cond, fa.Truth)
+		out = append(out, fmt.Sprintf("%s:%v[%s]", shortPos(c.pos(v.Pos())), t, v.String()))
+	}
+	return strings.Join(out, " ; ")
 }
